@@ -82,7 +82,7 @@ fn scalar_model(op: BinaryOp, a: &RV, b: &RV) -> M {
 
 fn element_pool(thorough: bool) -> Vec<RV> {
     let mut v: Vec<RV> = number_pool(thorough).into_iter().map(RV::Num).collect();
-    v.extend([RV::s(""), RV::s("a"), RV::s("b"), RV::s("ab"), RV::s("B"), RV::s("10"), RV::s("9"), RV::Bool(true), RV::Bool(false), RV::Null]);
+    v.extend([RV::s(""), RV::s("a"), RV::s("b"), RV::Bool(true), RV::Bool(false), RV::Null]);
     v.push(RV::List(vec![RV::Num(1.0)]));
     if thorough {
         v.push(RV::List(vec![]));
@@ -131,7 +131,15 @@ pub fn run(ctx: &Ctx, replay: Option<&J>) -> i32 {
     }
     let thorough = !ctx.quick();
     let pool = element_pool(thorough);
-    let scal_pool: Vec<RV> = pool.iter().filter(|v| !v.is_list()).cloned().collect();
+    // further strings for the scalar table and the string-list family below: prefixes, case, digit
+    // strings, and characters whose code-point order differs from their UTF-16 code-unit order
+    let extra_strings: Vec<RV> = ["ab", "B", "10", "9", "\u{ff5e}", "\u{1f600}", "x\u{ff5e}", "x\u{1f600}", "\u{e9}", "z"].iter().map(|s| RV::s(s)).collect();
+    let mut scal_pool: Vec<RV> = pool.iter().filter(|v| !v.is_list()).cloned().collect();
+    for e in &extra_strings {
+        if !scal_pool.contains(e) {
+            scal_pool.push(e.clone());
+        }
+    }
 
     // ---- (i) scalar o scalar against the model, and collect the real scalar outcome table
     let mut cases: Vec<Case> = vec![];
@@ -216,6 +224,47 @@ pub fn run(ctx: &Ctx, replay: Option<&J>) -> i32 {
         Exp::Val(format!("[{}]", out.join(", ")))
     };
 
+    // cases are evaluated and judged in batches, so that the thorough tier never holds tens of
+    // millions of them at once
+    let flush = |cases: &mut Vec<Case>, force: bool| {
+        if cases.is_empty() || (!force && cases.len() < 2_000_000) {
+            return;
+        }
+        let cases_now: Vec<Case> = std::mem::take(cases);
+        let cases = &cases_now;
+        if let Some(c) = cases.first() {
+            ctx.sample(json!(c.src));
+        }
+        let outcomes = par_map(cases, |c| eval_src(&c.src));
+    for (c, out) in cases.iter().zip(outcomes.iter()) {
+        ctx.count(1);
+        ctx.nontrivial(&c.src);
+        let ok = match (&c.expected, out) {
+            (Exp::Val(v), Outcome::Ok(g)) => v == g,
+            (Exp::Fail, Outcome::EvalError(_)) => true,
+            (Exp::Bool, Outcome::Ok(g)) => g == "true" || g == "false",
+            (Exp::Bool, Outcome::EvalError(_)) => true,
+            (Exp::Any, _) => true,
+            _ => false,
+        };
+        ctx.outcome(&format!("{}-{}", c.kind, if out.is_ok() { "ok" } else { "fail" }));
+        if !ok {
+            ctx.violation(Violation {
+                kind: format!("broadcast-{}", c.kind),
+                class: c.src.split(' ').find(|t| OPS.iter().any(|(o, _)| o == t) || DOT_OPS.contains(t)).unwrap_or("?").to_string(),
+                input: c.src.clone(),
+                expected: match &c.expected {
+                    Exp::Val(v) => format!("ok:{}", v),
+                    Exp::Fail => "eval-error".into(),
+                    Exp::Bool => "a boolean or an error".into(),
+                    Exp::Any => "any".into(),
+                },
+                observed: out.cmp_key(),
+                case: json!({"src": c.src}),
+            });
+        }
+    }
+    };
     // list o scalar, scalar o list
     for (oi, (op, _)) in OPS.iter().enumerate() {
         for l in short_lists.iter().chain(long_lists.iter()) {
@@ -225,6 +274,7 @@ pub fn run(ctx: &Ctx, replay: Option<&J>) -> i32 {
                 cases.push(Case { src: format!("{} {} {}", ls, op, s.src()), kind: "list-scalar", expected: mk_expected(oi, l, &ss) });
                 cases.push(Case { src: format!("{} {} {}", s.src(), op, ls), kind: "scalar-list", expected: mk_expected(oi, &ss, l) });
             }
+            flush(&mut cases, false);
         }
     }
     // quick: length-2 list pairs over the reduced alphabet, length-1 pairs over the whole pool
@@ -239,6 +289,7 @@ pub fn run(ctx: &Ctx, replay: Option<&J>) -> i32 {
     // word pairs at each length
     for (oi, (op, _)) in OPS.iter().enumerate() {
         for a in &ll_lists {
+            flush(&mut cases, false);
             for b in ll_lists.iter().filter(|b| b.len() == a.len()) {
                 cases.push(Case {
                     src: format!("{} {} {}", RV::List(a.clone()).src(), op, RV::List(b.clone()).src()),
@@ -267,6 +318,30 @@ pub fn run(ctx: &Ctx, replay: Option<&J>) -> i32 {
                     let a = RV::List(vec![e.clone(); m]);
                     let b = RV::List(vec![e.clone(); n]);
                     cases.push(Case { src: format!("{} {} {}", a.src(), op, b.src()), kind: "length-mismatch", expected: Exp::Fail });
+                }
+            }
+        }
+    }
+    // ---- string-list family: every list of length <= 2 over the string alphabet against every string
+    // scalar and every equal-length list, for the operators defined on strings
+    {
+        let mut salpha: Vec<RV> = vec![RV::s(""), RV::s("a"), RV::s("b")];
+        salpha.extend(extra_strings.iter().cloned());
+        let slists: Vec<Vec<RV>> = words(&salpha, 2).into_iter().filter(|w| !w.is_empty()).collect();
+        for (oi, (op, bop)) in OPS.iter().enumerate() {
+            if !matches!(bop, BinaryOp::Add | BinaryOp::Equal | BinaryOp::NotEqual | BinaryOp::Less | BinaryOp::LessEq | BinaryOp::Greater | BinaryOp::GreaterEq | BinaryOp::Coalesce) {
+                continue;
+            }
+            for l in &slists {
+                for sc in &salpha {
+                    let ss: Vec<RV> = l.iter().map(|_| sc.clone()).collect();
+                    cases.push(Case { src: format!("{} {} {}", RV::List(l.clone()).src(), op, sc.src()), kind: "list-scalar", expected: mk_expected(oi, l, &ss) });
+                    cases.push(Case { src: format!("{} {} {}", sc.src(), op, RV::List(l.clone()).src()), kind: "scalar-list", expected: mk_expected(oi, &ss, l) });
+                }
+                if thorough || l.len() == 1 {
+                    for m in slists.iter().filter(|m| m.len() == l.len()) {
+                        cases.push(Case { src: format!("{} {} {}", RV::List(l.clone()).src(), op, RV::List(m.clone()).src()), kind: "list-list", expected: mk_expected(oi, l, m) });
+                    }
                 }
             }
         }
@@ -390,38 +465,7 @@ pub fn run(ctx: &Ctx, replay: Option<&J>) -> i32 {
         }
     }
 
-    let outcomes = par_map(&cases, |c| eval_src(&c.src));
-    for (c, out) in cases.iter().zip(outcomes.iter()) {
-        ctx.count(1);
-        ctx.nontrivial(&c.src);
-        let ok = match (&c.expected, out) {
-            (Exp::Val(v), Outcome::Ok(g)) => v == g,
-            (Exp::Fail, Outcome::EvalError(_)) => true,
-            (Exp::Bool, Outcome::Ok(g)) => g == "true" || g == "false",
-            (Exp::Bool, Outcome::EvalError(_)) => true,
-            (Exp::Any, _) => true,
-            _ => false,
-        };
-        ctx.outcome(&format!("{}-{}", c.kind, if out.is_ok() { "ok" } else { "fail" }));
-        if !ok {
-            ctx.violation(Violation {
-                kind: format!("broadcast-{}", c.kind),
-                class: c.src.split(' ').find(|t| OPS.iter().any(|(o, _)| o == t) || DOT_OPS.contains(t)).unwrap_or("?").to_string(),
-                input: c.src.clone(),
-                expected: match &c.expected {
-                    Exp::Val(v) => format!("ok:{}", v),
-                    Exp::Fail => "eval-error".into(),
-                    Exp::Bool => "a boolean or an error".into(),
-                    Exp::Any => "any".into(),
-                },
-                observed: out.cmp_key(),
-                case: json!({"src": c.src}),
-            });
-        }
-    }
-    for c in cases.iter().step_by(cases.len() / 8 + 1) {
-        ctx.sample(json!(c.src));
-    }
+    flush(&mut cases, true);
     for k in ["list-scalar", "scalar-list", "list-list"] {
         ctx.require_outcome(&format!("{}-ok", k), 100);
         ctx.require_outcome(&format!("{}-fail", k), 100);
